@@ -152,6 +152,9 @@ def stage_cfgs(pid, tier, rng):
                         gen.append(C(kind="Fold", forked=True, par=par, cap=0 if ln < 3 else 1, monoid=mono, inputs=[vals[:ln]], gate=ln <= 2))
                     rnd.append(c)
                     rnd.append(C(kind="Fold", forked=True, par=par, cap=0, monoid=mono, inputs=[vals[:ln]], gate=True))
+                    if ln == 4 and par in (2, 3):
+                        # a buffered input closed while elements are still buffered and Combine calls are in flight
+                        rnd.append(C(kind="Fold", forked=True, par=par, cap=2 + par % 2, monoid=mono, inputs=[vals + vals[:2]], gate=True))
     return mc, gen, rnd
 
 
@@ -550,6 +553,17 @@ def special_scheds(pid, th, rng):
                 cmds = [A(3 * freq + 1), R(), R(), A(1), R(), R(), A(freq), R()]
                 out.append({"cfg": C(kind="Emit", cap=cap, freq=freq, mode="try", fail=[1, 4]), "cmds": cmds, "epilogue": "cancel", "origin": "slow-consumer"})
     B = lambda *cs: {"c": "burst", "sub": list(cs)}
+    if pid == "C10":
+        # workers held inside Combine while the rest of the input sits in the buffer and the input is closed; then every order of release
+        rel = lambda x: {"c": "release", "x": x}
+        for mono, vals in (("prod", [2, 3, 4, 5, 6]), ("min", [5, 4, 3, 2, 6]), ("and", [7, 6, 5, 3, 7]), ("max", [2, 3, 4, 5, 1])):
+            for par in (2, 3):
+                for cap in (2, 3):
+                    n = par + cap
+                    cfg = C(kind="Fold", forked=True, par=par, cap=cap, monoid=mono, inputs=[(vals * 2)[:n]], gate=True)
+                    for order in itertools.permutations(range(par)):
+                        cmds = [S() for _ in range(n)] + [{"c": "close", "i": 0}] + [rel((vals * 2)[k]) for k in order] + [rel(-1)] * (2 * n) + [R("res")]
+                        out.append({"cfg": cfg, "cmds": cmds, "epilogue": "drain", "origin": "held-combine"})
     if pid == "C09":
         # more failures outstanding than the error channel holds while its reader lags behind (Try: one error per failing element)
         for kind in ("Map", "FMap"):
